@@ -6,7 +6,7 @@ COMMON_NOTE = ("Trusted base: the VC generator /verif/govc (go/ssa front end of 
                "SMT encoding), the solvers z3 5.1.0 / z3 4.8.12 / cvc5 1.0.3, the assumed contracts of the standard library and of "
                "constbn/memcall in /verif/specs/external.spec, the native models of encoding/binary, bytes.HasPrefix, fmt.Sprintf and "
                "hmac.New, the init probe (package-level state read back from one execution of the real init()), contracts marked "
-               "'opaque' in /repo/verif_contracts.go (event helpers, memory locking, unsafe wipe, debug dump, processSMPTLV). "
+               "'opaque' in /repo/verif_contracts.go (event helpers, memory locking, unsafe wipe, debug dump, processSMPTLV, generateSMP1/2, Fingerprint, receiveEncoded). "
                "Machine integers are bit-vectors with Go semantics; 64-bit multiplication/division of two symbolic operands are "
                "uninterpreted (sound over-approximation). Cryptographic hardness is never modelled. Only the obligations listed in "
                "/verif/baseline/<id>.txt are claimed as proved; everything else generated for the property is reported in the evidence "
@@ -23,8 +23,8 @@ P = {
          "The two-party interleaving quantifier (in-flight window lemma) is not discharged; counters are covered under C05."),
  "C05": ("Replay protection: checkMessageCounter returns nil iff the 64-bit counter is strictly greater than the stored one for exactly that (recipient,sender) key pair, stores it only then and leaves other pairs alone (quantified list contracts over counterHistory with uniqueness invariant); retired key ids are rejected by pickOurKeys/pickTheirKey; unauthenticated messages change no counter.",
          "Replay into later sessions rests on fresh DH keys (not modelled)."),
- "C06": ("Rejected messages: after the repairs, a data message failing authentication changes no session state except the recorded finding (MAC key history, F4); instance tags are adopted only from validated messages; version and key are not committed on header errors; AKE cells return the same state on error and processDHKey/processDHCommit/processEncryptedSig leave their fields unchanged on error.",
-         "Frames cover the listed fields, not the whole heap; F7 (AKE context wiped before parsing a DH-Commit) is not covered by an obligation."),
+ "C06": ("Rejected messages: after the repairs, a data message failing authentication changes no session state except the recorded finding (MAC key history, F4); instance tags are adopted only from validated messages; version and key are not committed on header errors; AKE cells return the same state on error and processDHKey/processDHCommit/processEncryptedSig leave their fields unchanged on error; a reveal-signature message rejected at the commitment check leaves the stored commitment bytes and the peer value alone.",
+         "Frames cover the listed fields, not the whole heap; a reveal-signature message rejected after the commitment check (bad MAC or signature) has already replaced c.ake.theirPublicValue and the AKE keys (recorded limitation, pinned by Test_calcAKEKeys); F7 (AKE context wiped before parsing a DH-Commit) is not covered by an obligation."),
  "C07": ("AKE transition table: each of the 16 (state,message) cells is contracted with its next state and reply kind; retransmission cell; collision handling. The collision-winner cell violates the specification (known finding F8).",
          "Termination of the composed two-party system is not decided (liveness of a product automaton is outside contract reasoning)."),
  "C08": ("Zeroing helpers proved to zero in place (wipeBytes, wipeSecretKeyValue, wipeBigInt, dhKeyPair.wipe, akeKeys.wipe, wipeGX, wipeKeys); rotation zeroes the retired private key and keeps state on randomness failure; End/disconnect/akeHasFinished/restart paths are proved to call the wipes exactly once (ghost call counters) and to nil the secret fields.",
@@ -37,14 +37,14 @@ P = {
          "Secret binding, message terms, the algebraic iff-lemma and the event gate are not covered by discharged obligations (SMP message processing is an assumed contract)."),
  "C12": ("SMP robustness: group-membership postconditions of verifySMP1/2 and version-specific isGroupElement (v2 violates: known finding F12); out-of-sequence cells of the state machine abort to EXPECT1 with an error event; cheating path; ensureSMP; continueSMP no longer dereferences a nil state.",
          "processSMPTLV is an assumed contract; divMod's invertibility precondition is not established at its call sites."),
- "C13": ("Safety obligations (index, slice bounds, nil dereference, nil interface/func call, division by zero, type assertion, make with negative size, external preconditions) and loop termination measures for the ~150 functions under contract, including all Extract*/deserialize parsers, under arbitrary inputs satisfying the stated preconditions.",
-         "Functions without a contract (sexp reader, key-file import, SMP message generation) are not covered; allocation bounds are not checked; F19 is a known finding."),
- "C14": ("Fragmentation: after the repairs, unfragmented pass-through cases, fragment count formula, separator byte, prefix lengths (35/17), receive-side decision table (restart / next with same total / forget / unchanged on error) and its index<=total invariant, decimal fields parsed without truncation.",
-         "Piece boundaries i*r..min((i+1)*r,l) need nonlinear arithmetic and stay attempted; re-processing of a completed context (F20) is not covered."),
+ "C13": ("Safety obligations (index, slice bounds, nil dereference, nil interface/func call, division by zero, type assertion, make with negative size, external preconditions) and loop/recursion termination measures for the ~220 functions under contract, including all Extract*/deserialize parsers, the whitespace-tag parser, the recursive s-expression reader (every call consumes input or stops; after the F13 repair) and the libotr key-file import built on it, under arbitrary inputs satisfying the stated preconditions.",
+         "Functions without a contract (key-file export, receiveDecoded/processAKE behind the assumed contract of receiveEncoded, SMP message generation) are not covered; allocation bounds are not checked; the bufio.Reader under the s-expression reader is a ghost model (rdlen/rdpos/rdlast), not verified library code; F19 is a known finding."),
+ "C14": ("Fragmentation: after the repairs, unfragmented pass-through cases, fragment count formula, separator byte, prefix lengths (35/17), receive-side decision table (restart / next with same total / forget / unchanged on error) and its index<=total invariant, decimal fields parsed without truncation, a completed stream is forgotten before the reassembled message is processed (exactly-once hand-over, F20 repaired), accepted fragments inject nothing.",
+         "Piece boundaries i*r..min((i+1)*r,l) need nonlinear arithmetic and stay attempted."),
  "C15": ("Instance tags: verdict table of verifyInstanceTags, peer tag learned only from valid messages addressed to us, header fields at offsets 3 and 7, own tag >= 0x100 when generated, ExtractInstanceTags reads the decoded offsets 3 and 7.",
          "InitializeInstanceTag accepts 1..0xff (known finding F21); fragment branch of ExtractInstanceTags is safety-only."),
- "C16": ("Version commitment: sticky once set, v3 preferred over v2 within policy and offer, error and no commitment otherwise, committed version always allowed by policy, checkVersion ties the committed version to the message's version word; query message lists exactly the allowed versions; Send with OTR disabled returns one copy.",
-         "Whitespace-tag and query parsing loops and Receive pass-through are not covered (receiveWithoutOTR returns a wiped buffer: F26, not covered by an obligation)."),
+ "C16": ("Version commitment: sticky once set (also across fragment handling), v3 preferred over v2 within policy and offer, error and no commitment otherwise, committed version always allowed by policy, checkVersion ties the committed version to the message's version word; query message lists exactly the allowed versions; the whitespace-tag scanner only ever adds versions and consumes 8-byte groups; Send with OTR disabled returns one copy and Receive with OTR disabled returns the bytes it was given (F26 repaired).",
+         "Query-message version parsing is covered only for safety; Receive pass-through of ordinary plaintext in the enabled case is covered only as a length/copy fact."),
  "C17": ("Parsers proved against layouts: data message fields, TLV header and value window, AKE message deserializers (length and containment facts).",
          "Round-trip lemmas and key-file import/export are not covered."),
  "C18": ("Lifecycle: msgState is preserved by every contracted function except akeHasFinished (encrypted), End (plainText) and processDisconnectedTLV (finished); GoneSecure/StillSecure/GoneInsecure are appended to the ghost event log exactly on those transitions; queue append/clear/skip-while-retransmitting; last-message flag.",
@@ -67,9 +67,9 @@ for pid in sorted(P):
         "quick_cmd": f"/verif/bin/govc check --property {pid} --tier quick",
         "thorough_cmd": f"/verif/bin/govc check --property {pid} --tier thorough",
         "evidence_file": f"/verif/evidence/{pid}.json",
-        "replay_cmd_template": "cat {path}",
+        "replay_cmd_template": "/verif/tools/replay.sh {path}",
         "engine": "govc",
-        "technique": "contract-based deductive verification: function contracts in /repo/verif_contracts.go, VCs generated from go/ssa of the real code, discharged by z3/cvc5",
+        "technique": "contract-based deductive verification: function contracts in /repo/verif_contracts.go and /repo/sexp/verif_contracts.go, VCs generated from go/ssa of the real code, discharged by z3/cvc5; counterexamples replayed on the real code through go test -overlay",
         "level_claimed": {"category": "proof", "text": claim + " Not decided: " + rem, "design_ref": "DESIGN.md section 4, " + pid},
         "level_note": COMMON_NOTE,
     })
@@ -79,7 +79,7 @@ m = {
     "setup_cmd": "cd /verif/govc && GOFLAGS=-mod=mod GOPROXY=off GOSUMDB=off GOTOOLCHAIN=local go build -o /verif/bin/govc .",
     "hooks": {
         "guard": "verif",
-        "enable": "go build -tags verif (the contract file /repo/verif_contracts.go is comment-only and adds no compiled code; govc loads /repo with -tags=verif)",
+        "enable": "go build -tags verif (the contract files /repo/verif_contracts.go and /repo/sexp/verif_contracts.go are comment-only and add no compiled code; govc loads /repo with -tags=verif)",
         "baseline_off_cmd": "cd /repo && GOFLAGS=-mod=mod GOPROXY=off GOSUMDB=off GOTOOLCHAIN=local go test -vet=off -count=1 -timeout 25m ./...",
         "source_commits": hook_commits,
         "add_only": True,
@@ -87,7 +87,7 @@ m = {
     "engines": [{"name": "govc", "path": "/verif/govc", "serves_properties": sorted(P),
                  "kind_free_text": "VC generator for Go (go/ssa symbolic execution, bit-vector integers, typed heap, contracts as //@ comments) + SMT solver race"}],
     "checks": checks,
-    "notes": "Known findings: /verif/known_findings.txt. Baseline obligation lists: /verif/baseline/. Seeded changes: /verif/seeded/.",
+    "notes": "Known findings: /verif/known_findings.txt. Baseline obligation lists: /verif/baseline/. Seeded changes with meta.json and detection results: /verif/seeded/. Replay files are written to /verif/replay/<property>/<obligation>.txt (the generated Go test is next to them under /verif/replay/src).",
     "not_applicable": [],
 }
 json.dump(m, open("/verif/MANIFEST.json", "w"), indent=1)
